@@ -12,7 +12,7 @@ def all_session_units(ID=None):
 
 
 def run_session(ID, tier, seed, only=None, select=None, lemmas=(), assumptions=(), trusted=None, note='',
-                witness_cap=40, extra=None):
+                witness_cap=40, extra=None, with_decoders=False):
     prog = make_prog()
     known = load_known()
     if ID == 'C13':
@@ -34,6 +34,36 @@ def run_session(ID, tier, seed, only=None, select=None, lemmas=(), assumptions=(
         run.run_unit(u, prog)
         if u.verdicts or u.result.paths:
             run.vacuity_check(u)
+    if with_decoders:
+        # C10 "no endless loop" rests on the termination of every decoder: the C11 units are part of this check
+        from . import C11 as D
+        inv = D.inventory(prog.repo)
+        D.load_all_message_modules(prog)
+        for (mod, cls, fn, loops) in inv:
+            f0 = prog.func('%s.%s.%s' % (mod, cls, fn))
+            variants = [None]
+            if f0.kind == 'classmethod' and D.needs_subclass(f0):
+                variants = D.leaf_subclasses(prog, f0.cls) or [None]
+            for sc in variants:
+                u = D.term_unit(prog, mod, cls, fn, loops, as_cls=sc)
+                u.props = (ID,)
+                if only and u.name not in only:
+                    continue
+                saved = dict(prog.contracts)
+                prog.contracts.clear()           # decoder units run on the real bodies (their own call abstraction)
+                try:
+                    run.run_unit(u, prog)
+                finally:
+                    prog.contracts.update(saved)
+        u = D.update_parse_unit(prog)
+        u.props = (ID,)
+        if not only or u.name in only:
+            saved = dict(prog.contracts)
+            prog.contracts.clear()
+            try:
+                run.run_unit(u, prog)
+            finally:
+                prog.contracts.update(saved)
     if not only:
         for lm in lemmas:
             run.run_lemma(lm(prog) if callable(lm) and not isinstance(lm, Lemma) else lm)
